@@ -179,6 +179,9 @@ func (a *genericAuthenticator) getSubjectInformation(ctx heimdall.Context, authD
 	var (
 		cacheKey string
 		session  *SessionLifespan
+		payload  []byte
+		cached   bool
+		err      error
 	)
 
 	if a.ttl > 0 {
@@ -186,15 +189,19 @@ func (a *genericAuthenticator) getSubjectInformation(ctx heimdall.Context, authD
 		if entry, err := cch.Get(ctx.AppContext(), cacheKey); err == nil {
 			logger.Debug().Msg("Reusing subject information from cache")
 
-			return entry, nil
+			payload, cached = entry, true
 		}
 	}
 
-	payload, err := a.fetchSubjectInformation(ctx, authData)
-	if err != nil {
-		return nil, err
+	if !cached {
+		payload, err = a.fetchSubjectInformation(ctx, authData)
+		if err != nil {
+			return nil, err
+		}
 	}
 
+	// cached information is examined as well: the cache key does not cover the session lifespan
+	// settings of this instance
 	if a.sessionLifespanConf != nil {
 		session, err = a.sessionLifespanConf.CreateSessionLifespan(payload)
 		if err != nil {
@@ -206,6 +213,10 @@ func (a *genericAuthenticator) getSubjectInformation(ctx heimdall.Context, authD
 				return nil, errorchain.New(heimdall.ErrAuthentication).WithErrorContext(a).CausedBy(err)
 			}
 		}
+	}
+
+	if cached {
+		return payload, nil
 	}
 
 	if cacheTTL := a.getCacheTTL(session); cacheTTL > 0 {
